@@ -279,6 +279,21 @@ class Lifecycle:
                 return ("acquire", expr)
             if ts and ts[0].is_property:
                 return self.acquisition_of(ts[0], self._single_return(ts[0]), cls)
+            # a private factory that returns the acquired observer (or None)
+            if len(ts) == 1 and not isinstance(ts[0].node, ast.Lambda) and getattr(self, "_acq_depth", 0) < 3:
+                self._acq_depth = getattr(self, "_acq_depth", 0) + 1
+                try:
+                    results = []
+                    for r in own_nodes(ts[0].node):
+                        if isinstance(r, ast.Return) and r.value is not None and not (isinstance(r.value, ast.Constant) and r.value.value is None):
+                            results.append(self.acquisition_of(ts[0], r.value, cls))
+                finally:
+                    self._acq_depth -= 1
+                for r in results:
+                    if r[0] == "acquire":
+                        return r
+                if results and all(r[0] == "given" for r in results):
+                    return ("given",)
             return ("unknown",)
         if isinstance(expr, ast.Attribute):
             if isinstance(expr.value, ast.Name) and self.ctx.res._is_self(f, expr.value):
@@ -297,6 +312,10 @@ class Lifecycle:
             for kind, value, _ in d.of(expr.id):
                 if kind in ("value", "elem", "unpack"):
                     results.append(self.acquisition_of(f, value, cls))
+            # walrus bindings:  if (obs := self._x) is not None: return obs
+            for n in own_nodes(f.node):
+                if isinstance(n, ast.NamedExpr) and isinstance(n.target, ast.Name) and n.target.id == expr.id:
+                    results.append(self.acquisition_of(f, n.value, cls))
             for r in results:
                 if r[0] == "acquire":
                     return r
